@@ -57,6 +57,13 @@ def _check_header(rep, rule, site, word, path, lensym):
     )
 
 
+def m_parent_stmt(mod, node):
+    cur = node
+    while cur is not None and not isinstance(cur, ast.stmt):
+        cur = mod.parents.get(cur)
+    return cur if cur is not None else node
+
+
 def rule_stateless(repo, rep, mod):
     from ..astutil import call_name
 
@@ -107,8 +114,23 @@ def run(repo, rep):
     def mk():
         return [SymList("S"), AObj("arch")], {}
 
-    paths = it.run("create_driver_payload", mk)
     site = SITE + ":create_driver_payload"
+    # "contains those words unmodified": the caller's word list is only read (the compiler keeps using it for the
+    # statistics and the public API may be called again with the same list)
+    cdp = mod.func("create_driver_payload")
+    pname = cdp.args.args[0].arg
+    writes = []
+    for x in ast.walk(cdp):
+        if isinstance(x, (ast.Subscript, ast.Attribute)) and isinstance(x.ctx, (ast.Store, ast.Del)) and isinstance(x.value, ast.Name) and x.value.id == pname:
+            writes.append(str(norm(m_parent_stmt(mod, x))))
+        if isinstance(x, ast.AugAssign) and isinstance(x.target, ast.Name) and x.target.id == pname:
+            writes.append(str(norm(x)))
+        if isinstance(x, ast.Call) and isinstance(x.func, ast.Attribute) and isinstance(x.func.value, ast.Name) and x.func.value.id == pname and \
+                x.func.attr in ("append", "extend", "insert", "pop", "remove", "clear", "sort", "reverse", "__setitem__", "__delitem__"):
+            writes.append(str(norm(x)))
+    rep.check(not writes, "C17-c", site, f"the caller's word list `{pname}` is only read", f"{writes[:2]}: the command stream the caller holds is changed by building the payload "
+              "(a second payload built from it, or the words reported afterwards, are no longer the generated stream)")
+    paths = it.run("create_driver_payload", mk)
     lensym = "len(S)"
     n_ret = 0
     raised_vela = False
@@ -245,6 +267,15 @@ def run(repo, rep):
             bank_size = st.value.value
     if bank_size is None:
         raise AnalysisError("shram_bank_size literal not found")
+    # the per-core SHRAM size the config word multiplies by the core count: banks of this row x bank size
+    from ..exprnorm import poly
+
+    ssb = [st for st in ast.walk(af.func("ArchitectureFeatures.__init__")) if isinstance(st, ast.Assign) and norm(st.targets[0]) == "self.shram_size_bytes"]
+    if len(ssb) != 1:
+        raise AnalysisError("shram_size_bytes definition not found")
+    rep.check(poly(ssb[0].value) == {tuple(sorted(("accel_config.shram_banks", "self.shram_bank_size"))): 1}, "C17-e", "ethosu/vela/architecture_features.py:ArchitectureFeatures.__init__",
+              "shram_size_bytes = shram_banks * shram_bank_size (one core's SHRAM; build_config_word multiplies by the core count)",
+              f"`{norm(ssb[0].value)}` = {poly(ssb[0].value)}: the configuration action declares a SHRAM size that does not match the accelerator (the driver rejects or mis-programs the stream)")
     u65_expr = None
     for st in ast.walk(af.func("ArchitectureFeatures.__init__")):
         if isinstance(st, ast.Assign) and norm(st.targets[0]) == "self.is_ethos_u65_system":
